@@ -95,10 +95,10 @@ func (t *threadReader) Read(p []byte) (int, error) {
 // ---- workloads ---------------------------------------------------------------
 
 var c19Workloads = []string{"handshake-default-suites+GetDeviceID", "session:GetDeviceID+GetChassisStatus", "session:dcmi.GetPowerReading", "session:RetrieveSDRRepository", "session:SetPrivilege+Close", "sessionless:GetSystemGUID+GetChannelAuthCaps",
-	"session:dcmi.GetSensorInfo", "session:SensorReader.Read(linearised)", "sessionless:RetrieveSupportedCipherSuites+dcmi.Capabilities"}
+	"session:dcmi.GetSensorInfo", "session:SensorReader.Read(linearised)", "sessionless:RetrieveSupportedCipherSuites+dcmi.Capabilities", "session:commands-refused-with-unusual-codes"}
 
 // c19NeedsSession lists the workloads that run on a session prepared beforehand.
-var c19NeedsSession = map[int]bool{1: true, 2: true, 3: true, 4: true, 6: true, 7: true}
+var c19NeedsSession = map[int]bool{1: true, 2: true, 3: true, 4: true, 6: true, 7: true, 9: true}
 
 type c19Thread struct {
 	w    *World
@@ -120,6 +120,12 @@ func c19Config(slot int) ref.Config {
 	cfg.PowerReading[0] = byte(100 + slot)
 	cfg.Sensors = map[byte][]byte{0x37: {byte(0x40 + slot*9), 0xC0, 0x00}}
 	cfg.DCMISensors = map[byte][]uint16{0x37: {uint16(0x10 + slot), uint16(0x20 + slot)}, 0x03: {uint16(0x30 + slot)}, 0x07: {}}
+	if slot%2 == 1 {
+		// an older BMC: only the DCMI-specific entity IDs know sensors
+		cfg.DCMISensors = map[byte][]uint16{0x40: {uint16(0x50 + slot)}, 0x41: {uint16(0x60 + slot), uint16(0x61 + slot)}, 0x42: {}}
+		// ... and it advertises suite 3 only
+		cfg.CipherSuiteData = csData(csRecOEM, csRec3)
+	}
 	cfg.DCMIPageSize = 1
 	cfg.Repo = &ref.Repo{LastAdd: 100, LastErase: 50, Recs: []ref.SDRRec{
 		{ID: uint16(1 + slot), Data: fsrBytes(uint16(1+slot), byte(slot), fmt.Sprintf("T%d", slot))},
@@ -210,6 +216,12 @@ func (th *c19Thread) run(slot, workload int) {
 		fmt.Fprintf(o, "suites=%v err=%v;", recs, err)
 		c, err := dcmi.NewSessionlessCommander(w.Conn).GetDCMICapabilitiesInfoEnhancedSystemPowerStatisticsAttrs(w.Ctx)
 		fmt.Fprintf(o, "caps=%+v err=%v;", c, err)
+	case 9:
+		// sensors the BMC does not know: completion code 0xCB; an unknown command: 0xC1
+		_, err := th.sess.GetSensorReading(w.Ctx, byte(0x90+slot))
+		fmt.Fprintf(o, "unknown sensor err=%v;", err)
+		code, err := th.sess.SendCommand(w.Ctx, &rawCmd{op: ipmi.Operation{Function: 0x30, Command: ipmi.CommandNumber(0x10 + slot)}, body: []byte{byte(slot)}})
+		fmt.Fprintf(o, "raw code=%v err=%v;", byte(code), err)
 	case 5:
 		g, err := w.Conn.GetSystemGUID(w.Ctx)
 		fmt.Fprintf(o, "guid=%x err=%v;", g, err)
